@@ -32,7 +32,12 @@ fn probe_envelope() -> Envelope {
 }
 
 fn plain_envelope() -> Envelope {
-    Envelope::new("Alice").add_assertion("knows", "Bob").add_assertion(known_values::IS_A, known_values::SEED_TYPE)
+    // includes a text leaf longer than the 40-byte summary limit with a multi-byte character across byte 40
+    Envelope::new("Alice")
+        .add_assertion("knows", "Bob")
+        .add_assertion(known_values::IS_A, known_values::SEED_TYPE)
+        .add_assertion("note", "Die Strasse nach Norden ist im Winter geschlossen für alle Fahrzeuge")
+        .add_assertion("n2", format!("{}é tail that makes the text long enough", "a".repeat(39)))
 }
 
 #[derive(Clone, Copy, Debug, PartialEq, Eq, Hash, PartialOrd, Ord)]
